@@ -22,6 +22,8 @@ import re
 # passed to isspace/isalnum).
 A39 = [bytes([c]) for c in b"#\"'\\/*<>(){}[];:,.01xeRL_a+-=%^&|~!? \n"] + [b"\x80"]
 A32 = [bytes([c]) for c in b"#\"'\\/*<>(){}[];:,.01xeR_+-=&|! \n"]
+A8 = [bytes([c]) for c in b"\"'({;#\\\n"]
+assert len(A8) == 8 and set(A8) <= set(A39)
 assert len(A39) == 39 and len(A32) == 32 and len(set(A39)) == 39 and set(A32) <= set(A39)
 
 
@@ -330,6 +332,16 @@ def double_byte_edits(data, alpha):
         for i in range(start, m + 1):
             for a in alpha:
                 yield "%s+ins@%d:%s" % (l1, i, esc(a)), d1[:i] + a + d1[i:]
+
+
+def double_token_edits(data, alpha):
+    """All pairs of single token edits (second edit at a token position not before the first)."""
+    for l1, d1 in token_edits(data, alpha):
+        k1 = int(l1.split("@")[1].split(":")[0])
+        for l2, d2 in token_edits(d1, alpha):
+            k2 = int(l2.split("@")[1].split(":")[0])
+            if k2 >= k1:
+                yield "%s+%s" % (l1, l2), d2
 
 
 # ------------------------------------------------------------------ .N command files (v)
